@@ -170,7 +170,8 @@ OnSendCall(m, ev) ==
       \* some moment since the call (the library may decide "in use" at the call or at a later poll, and an
       \* automatic identifier may collide with one the caller of another send chose)
       rec == [s |-> ev.s, kind |-> kind, st |-> "live", id |-> 0, cid |-> IF kind = "chunk" THEN 0 ELSE ev.id, busy |-> m.inuse,
-              plen |-> ev.n, owed |-> 0, of |-> IF kind = "chunk" THEN ev.id ELSE 0]
+              plen |-> ev.n, owed |-> IF kind = "stream1" THEN ev.n ELSE 0, of |-> IF kind = "chunk" THEN ev.id ELSE 0,
+              cbad |-> FALSE]
       m1 == IF i = 0 THEN [m EXCEPT !.snd = Append(@, rec)] ELSE [m EXCEPT !.snd[i] = rec]
   IN IF ev.k = "q1nb" THEN [m1 EXCEPT !.noblock = TRUE] ELSE m1
 
@@ -178,7 +179,7 @@ OnSendCall(m, ev) ==
 OnRelease(m, ev) ==
   LET i == SndIdx(m, ev.s)
       rid == IF i > 0 THEN m.snd[i].id ELSE 0
-      rec == [s |-> ev.n, kind |-> "rel", st |-> "live", id |-> rid, cid |-> 0, busy |-> {}, plen |-> 0, owed |-> 0, of |-> 0]
+      rec == [s |-> ev.n, kind |-> "rel", st |-> "live", id |-> rid, cid |-> 0, busy |-> {}, plen |-> 0, owed |-> 0, of |-> 0, cbad |-> FALSE]
       j == SndIdx(m, ev.n)
       m1 == IF j = 0 THEN [m EXCEPT !.snd = Append(@, rec)] ELSE [m EXCEPT !.snd[j] = rec]
   IN [m1 EXCEPT !.relOwed = @ + 1, !.relIds = IF rid > 0 THEN @ \cup {rid} ELSE @]
@@ -196,13 +197,20 @@ OnSendDone(mm, ev) ==
       \* payload accounting of streamed QoS 0 sends
       j == IF kind = "chunk" THEN SndIdx(mm, mm.snd[i].of) ELSE 0
       m == IF kind = "stream0" /\ ev.k = "ok" THEN [mm EXCEPT !.snd[i].owed = mm.snd[i].plen]
-           ELSE IF kind = "chunk" /\ j > 0 /\ mm.snd[j].kind = "stream0"
-             THEN [mm EXCEPT !.snd[j].owed = IF ev.k = "ok" /\ @ > mm.snd[i].plen THEN @ - mm.snd[i].plen ELSE 0]
+           ELSE IF kind \in {"stream0", "stream1"} /\ LocalFailure(ev.k) THEN [mm EXCEPT !.snd[i].cbad = TRUE, !.snd[i].owed = 0]
+           ELSE IF kind = "chunk" /\ j > 0 /\ mm.snd[j].kind \in {"stream0", "stream1"}
+             THEN [mm EXCEPT !.snd[j].owed = IF ev.k = "ok" /\ @ > mm.snd[i].plen THEN @ - mm.snd[i].plen ELSE 0,
+                             !.snd[j].cbad = @ \/ ev.k # "ok"]
            ELSE mm
+      \* a piece that fits what its PUBLISH still owes is refused by the encoder although nothing went wrong on that
+      \* stream before (e.g. an empty piece made the handle believe the payload was complete)
+      pieceRefused == kind = "chunk" /\ ev.k = "Encode" /\ j > 0 /\ mm.snd[j].kind \in {"stream0", "stream1"}
+                      /\ ~mm.snd[j].cbad /\ mm.snd[j].owed > 0 /\ mm.snd[i].plen <= mm.snd[j].owed /\ Healthy(mm)
       \* a chunk beyond the declared size aborts the connection (C08 wants exactly that): a cause of its end
       m0 == [m EXCEPT !.snd[i].st = "done", !.term = @ \/ (kind = "chunk" /\ ev.k = "Encode")]
   IN
-  IF ev.k \in {"ok", "receipt"} THEN
+  IF pieceRefused THEN Fail(m0, "C08:payload-piece-refused-although-it-fits-the-declared-size")
+  ELSE IF ev.k \in {"ok", "receipt"} THEN
      IF want = "NONE" THEN m0
      ELSE
        \* v5 results carry the packet id; a release future is bound to its receipt's id
